@@ -138,7 +138,7 @@ pub fn replay_random(case: &Value, rep: &mut Report) {
                     let wb = case["m2"].as_i64().unwrap() as f32 * exp2(case["e2"].as_i64().unwrap());
                     if !(a >= 0.0 && a <= 2147483648.0 && b >= 0.0 && b <= 2147483648.0) {
                         rep.mismatch("C18", "value_out_of_range", &id, json!({"seed": seed, "values": [a, b]}), case);
-                    } else if seed < 2147483647 && (a != wa || b != wb) {
+                    } else if a != wa || b != wb {
                         rep.mismatch("C18", "sequence_differs_from_minstd", &id, json!({"seed": seed, "expected": [wa, wb], "observed": [a, b]}), case);
                     }
                     let mut s = v.clone();
